@@ -397,7 +397,7 @@ def o_real(ctx, case):
     if P is not None:
         # off-curve neighbour under the same scaling
         bad = (P[0], F.add(P[1], F.one))
-        ctx.check(bool(m.is_on_curve(M.pt(g, bad, s1), M.bcoef[g])) is False, "real", "is_on_curve_neg",
+        ctx.check(ec.on_curve(F, bad, b) or bool(m.is_on_curve(M.pt(g, bad, s1), M.bcoef[g])) is False, "real", "is_on_curve_neg",
                   case, "off-curve point reported on-curve", {"fn": "is_on_curve"})
     # line function
     if P is not None and Q is not None:
